@@ -94,6 +94,15 @@ class Verifier:
         self.backends = {}
         self.seq = 0
         self.I.prove_hook = self.check_goal
+
+        def probe(goal):
+            g = concretize(goal)
+            if g is True:
+                return 'unsat'
+            if g is False:
+                return 'sat'
+            return self.prove(g)[0]
+        self.I.prove_probe = probe
         self.install_dsl()
 
     # --------------------------------------------------------------------- DSL
@@ -844,7 +853,10 @@ class Verifier:
                 hooks[tfn] = self.make_stub(st, sname, ret)
             for ms in self.contracts:
                 if ms.opts.get('modular') and ms.target:
-                    fm = self.resolve_target(ms.target)
+                    try:
+                        fm = self.resolve_target(ms.target)
+                    except Exception:
+                        continue    # the helper under that modular contract is gone (renamed): only its callers are affected
                     if fm not in hooks:
                         hooks[fm] = (lambda I_, f_, a_, k_, ms=ms: self.modular_call(ms, f_, a_, k_))
             I.contract_hooks = hooks
